@@ -35,7 +35,7 @@ ASSUMPTIONS = [
 ]
 REQUIRED = {"all": ["judged_calls", "references_computed", "pair:get_kappa->get_deltaMax(True)",
                     "pair:get_deltaMax->get_deltaMax(True)", "after_perturber_raise", "multi_object_histories",
-                    "preset_phosphosites_histories", "distinct_ops_ge_40", "state_snapshots", "adopted_shuffled_children", "thread_rounds", "several_objects_of_one_string"]}
+                    "preset_phosphosites_histories", "distinct_ops_ge_40", "state_snapshots", "adopted_shuffled_children", "thread_rounds", "several_objects_of_one_string", "default_shuffle_mobility_checks"]}
 NHIST = {"quick": 280, "thorough": 3000}
 NSEQ = {"quick": 90, "thorough": 600}
 MAX_SHARDS = 16
@@ -357,6 +357,11 @@ def judge_sweep(case, rep, S):
                 return
 
 
+def mobility(rep, S, why):
+    from .. import salt as SALT
+    SALT.default_shuffles_move_everything(S, rep, "history_dependent", " (%s)" % why)
+
+
 def judge_threads(case, rep, S):
     """Read-only queries asked by several threads, each on objects of its own: the answers are those of a quiet process."""
     from .. import threads as T
@@ -499,6 +504,15 @@ def judge(case, rep, S):
             return
         last[k] = name
     rep.cnt("references_computed", _z["memo"].get("__n", 0) - n0)
+    if any(presets) and rep.evaluations % 3 == 0:
+        # objects with phosphosites were shuffled with nothing frozen during this history (a perturber): afterwards a shuffle
+        # of a new object may still move every position
+        for o_ in objs:
+            try:
+                o_.get_shuffled_sequence()
+            except Exception:
+                pass
+        mobility(rep, S, "after default shuffles of objects with phosphosites %r" % (presets,))
     if rep.evaluations % 30 == 1:
         rep.sample({"sequences": seqs, "presets": presets, "history_head": [list(map(str, h)) for h in history[:12]]})
 
